@@ -4,6 +4,9 @@ The model (coq/theories/Model/C19_ErrFormulas.v) is the model of the REPAIRED co
 calc-fisher-matrix-total-size, qmpt-mse-linear-analytical-qoperation (owner C19) and calc-prob-dists-mixed-outcome-counts,
 calc-fisher-matrix-mixed-outcome-counts (owner C08).  On a tree without one of them the defect is reported again.
 
+Translator tie (regen_model): gen/c19_py2coq.py regenerates the loop / index / guard / dispatch skeletons of the anchored functions from
+the current source on every run; coq/gen/C19_Equiv.v proves them equal to the hand-written model (18 theorems, counted as obligations).
+
 Sub-checks
   helpers      matrix_util / data_analysis helper functions vs the extracted model (+ error branches)
   expect       exact expectation by complete enumeration of outcome sequences (model functional) vs the
@@ -156,11 +159,14 @@ def chk_helpers(ctx, case):
             bad("value", "x v x^T differs from model: %s vs %s" % (got.tolist(), mod))
     elif kind == "replace":
         p = [float(fr(x)) for x in case["p"]]; eps = float(fr(case["eps"]))
-        band = any(abs(x - eps) < 1e-6 * eps for x in p)
+        band = any(abs(x - eps) < 1e-6 * eps for x in p) and not case.get("exact")
+        # "exact": eps and every entry are dyadic rationals that ARE floats, so `prob < eps` is decided identically on both sides
+        # even exactly AT the threshold (entries equal to eps are NOT replaced, entries one ulp-scale step below are)
+        assert not case.get("exact") or all(Fraction(x) == fr(y) for x, y in zip(p, case["p"]))
         mod = fl(m.call("c19.replace", [len(p)], [eps] + p))
         got = mu.replace_prob_dist(np.array(p), eps)
         nrep = sum(1 for x in p if x < eps)
-        ctx.count("helpers", key=("rep", tuple(case["p"]), case["eps"]), label="replace-%d-of-%d" % (nrep, len(p)), nontrivial=not band and 0 < nrep < len(p))
+        ctx.count("helpers", key=("rep", tuple(case["p"]), case["eps"]), label="replace-%d-of-%d%s" % (nrep, len(p), "-at-threshold" if case.get("exact") else ""), nontrivial=not band and 0 < nrep < len(p))
         if not band and not close_arr(got, mod, 1e-12):
             bad("value", "replace_prob_dist(%s,%s)=%s model %s" % (p, eps, got.tolist(), mod))
         # by design: replaced distribution still sums to the same total, all entries >= eps when originally >= 2 eps
@@ -174,8 +180,14 @@ def chk_helpers(ctx, case):
             p = np.array([float(fr(x)) for x in it["p"]]); G = [np.array([float(fr(x)) for x in row]) for row in it["G"]]
             items.append((float(fr(it.get("w", "1"))), p, G))
         nv = len(items[0][2][0])
-        band = any(abs(x - eps_m) < 1e-6 * abs(eps_m) for _, p, _ in items for x in p) or any(
-            abs(abs(sum(p) - 1) - eps_m) < 1e-12 for _, p, _ in items)
+        band = (any(abs(x - eps_m) < 1e-6 * abs(eps_m) for _, p, _ in items for x in p) or any(
+            abs(abs(sum(p) - 1) - eps_m) < 1e-12 for _, p, _ in items)) and not case.get("exact")
+        # the regularised distribution may contain an entry that is exactly 0 (an entry equal to eps next to replaced ones): the code
+        # then divides by zero (numpy: inf / nan with a RuntimeWarning) while the field model has no infinity - not comparable
+        if eps_m > 0 and any(x == 0 for _, p, _ in items if abs(sum(p) - 1) < 1e-6 and min(p) > -1e-9
+                             for x in m.call("c19.replace", [len(p)], [eps_m] + list(p))):
+            ctx.count("helpers", key=(kind, repr(case["items"]), case["eps"]), label="%s-regularised-entry-exactly-zero" % kind, nontrivial=False)
+            return
         if kind == "fisher":
             w, p, G = items[0]
             st, val = impl_call(mu.calc_fisher_matrix, p, G, eps)
@@ -383,6 +395,18 @@ def gen_helpers(ctx):
             if p[j] == 0:
                 p[j] = Fraction(3, 10 ** 9)
         cases.append({"kind": "replace", "p": [frs(x) for x in p], "eps": eps})
+    # exactly AT the threshold, with exactly representable numbers (no band): entries equal to eps, just below, just above, zero,
+    # in every position
+    for kexp in (10, 20):
+        epsq = Fraction(1, 2 ** kexp); step = Fraction(1, 2 ** (kexp + 25))
+        for _ in range(ctx.n(3, 10)):
+            mm_ = rng.randint(3, 5)
+            small = [rng.choice([epsq, epsq - step, epsq + step, Fraction(0), epsq]) for _ in range(mm_ - 1)]
+            pos = rng.randrange(mm_)
+            pq = small[:pos] + [1 - sum(small)] + small[pos:]
+            cases.append({"kind": "replace", "p": [frs(x) for x in pq], "eps": frs(epsq), "exact": True})
+            Gq = [[rq(rng, -5, 5, (1, 2, 4)) for _ in range(2)] for _ in range(mm_)]
+            cases.append({"kind": "fisher", "items": [{"p": [frs(x) for x in pq], "G": Gq}], "eps": frs(epsq), "exact": True})
     for _ in range(k):
         J = 1 if rng.random() < 0.5 else rng.randint(2, 3)
         mm_ = rng.randint(2, 4); nv = rng.randint(1, 4)
@@ -849,8 +873,6 @@ def sub_object_err(ctx):
         for eq in (True, False):
             if ctx.quick and not eq and kind in ("qst", "qpt"):
                 continue
-            if tp is not None and tp[0] == "mixed":
-                continue      # LinearEstimator with unequal outcome counts is property C09's business
             t = S.build_tomo(kind, sysn, eq, ts, tp, mo)
             for _ in range(ctx.n(1, 3)):
                 cases.append({"type": kind, "sys": sysn, "eq": eq, "mo": mo, "tst_states": ts, "tst_povms": tp,
@@ -1163,7 +1185,7 @@ def run(ctx):
         ok, info = False, info2
         ctx.note("regenerated model (coq/gen/C19_Equiv.v) not discharged: %s" % str(info2)[:400])
         # the tie is broken: widen the differential sweep (towards the thorough-size generators) to find a concrete failing input
-        ctx.n = lambda quick, thorough: max(quick, (quick + thorough) // 2)
+        ctx.n = lambda quick, thorough: max(quick, (2 * quick + thorough) // 3)
     if not ok:
         ctx.discharged = min(ctx.discharged, ctx.obligations - 1)
     for name, fn in SUBS:
